@@ -118,6 +118,47 @@ pub fn run(tier: Tier) -> Report {
     rep.add_transitions(cases.len() as u64);
     rep.add_states(cases.len() as u64);
     rep.add_nontrivial(cases.iter().filter(|c| c.0 < 10 || c.1 < 10 || c.0 % 2 == 1 || c.1 % 2 == 1).count() as u64);
+    // size changes: a predicted / disposable picture announcing another size than the reference
+    // (fully coded, all skipped, or without any macroblock data) - whatever is accepted must still
+    // satisfy the plane relations and survive post-processing
+    let szs: [(u16, u16); 7] = [(16, 16), (32, 16), (16, 32), (24, 16), (17, 3), (48, 32), (1, 1)];
+    let mut n_sc = 0u64;
+    for &(wa, ha) in &szs {
+        for &(wb, hb) in &szs {
+            for kind in [1u8, 2] {
+                for body in 0..3usize {
+                    n_sc += 1;
+                    let mut d = Dec::new(1);
+                    let ipic = coded_intra(shdr(wa, ha, 0, 0, 7, 0));
+                    let b0 = encode_bytes(&ipic);
+                    d.fed.push(b0.clone());
+                    if !decode_bytes(&mut d.st, &b0).is_ok() {
+                        continue;
+                    }
+                    let (mbw, mbh) = mb_grid(wb, hb);
+                    let mbs: Vec<Mb> = match body {
+                        0 => (0..mbw * mbh).map(|_| Mb::NotCoded).collect(),
+                        1 => vec![],
+                        _ => (0..mbw * mbh).map(|i| if i % 2 == 0 { Mb::inter((1, -1)) } else { Mb::NotCoded }).collect(),
+                    };
+                    let p = Pic { hdr: shdr(wb, hb, kind, 1, 9, 0), mbs };
+                    let bytes = encode_bytes(&p);
+                    d.fed.push(bytes.clone());
+                    match decode_bytes(&mut d.st, &bytes) {
+                        Outcome::Panic(pm) => rep.violation(&panic_sig(&pm), format!("{wb}x{hb} picture after a {wa}x{ha} reference: {pm}"), d.replay("size change")),
+                        Outcome::Err(_) => {
+                            if (wa, ha) == (wb, hb) {
+                                rep.violation("C13/same-size-prediction-rejected", format!("{wb}x{hb} predicted picture (body {body}) over a reference of the same size rejected"), d.replay("size change"));
+                            }
+                        }
+                        Outcome::Ok => post_process(&rep, &d.st, &format!("{wb}x{hb} picture (type {kind}, body {body}) after a {wa}x{ha} reference"), d.replay("size change")),
+                    }
+                }
+            }
+        }
+    }
+    rep.add_transitions(2 * n_sc);
+    rep.add_states(n_sc);
     // standard mode: custom sizes (multiples of 4) and sub-QCIF
     let mut std_cases = vec![];
     for w in (4..=maxd).step_by(4) {
